@@ -161,6 +161,12 @@ impl PatProp for Options {
         }
         let c = engine::captures_from_pos(&p.plain, t, pos);
         let d = engine::captures_from_pos(&p.neutral, t, pos);
+        // a run that ends in a resource-limit error under the default limits may legitimately end in an
+        // answer under the huge limit (that is what the limit is for): only answers are compared
+        let c_limit_err = matches!(&c, Out::Err(e) if e == "BacktrackLimitExceeded" || e == "StackOverflow");
+        if c_limit_err {
+            return Verdict::Skip("default-limit-error");
+        }
         if c != d {
             return Verdict::Fail(Fail::new("neutral-options", format!("no options: {}", c.show()), format!("case_insensitive(false) + huge limits: {}", d.show())));
         }
